@@ -354,7 +354,7 @@ func genC14(t *rapid.T) c14Case {
 	size := rapid.IntRange(2, 7).Draw(t, "size")
 	c.Setup = []op{{K: "set", A: size, B: 0, C: rapid.IntRange(0, size-1).Draw(t, "ownpos"), D: 1}}
 	state := func(t *rapid.T, m int) []op {
-		switch rapid.SampledFrom([]string{"signed", "signed", "signed", "parked", "done", "late", "none", "peer-first", "rotate"}).Draw(t, "state") {
+		switch rapid.SampledFrom([]string{"signed", "signed", "signed", "parked", "parked-many", "done", "late", "none", "peer-first", "rotate"}).Draw(t, "state") {
 		case "signed": // observed, own signature delivered, below quorum
 			return []op{{K: "observe", A: m}, {K: "loopback", A: 0}}
 		case "peer-first": // a peer's observation (naming another transaction) arrives before the node's own
@@ -363,6 +363,12 @@ func genC14(t *rapid.T) c14Case {
 			return []op{{K: "set", A: rapid.IntRange(2, 7).Draw(t, "size2"), B: rapid.IntRange(0, 3).Draw(t, "off"), C: rapid.IntRange(0, 1).Draw(t, "ownpos2"), D: 1}}
 		case "parked":
 			return []op{{K: "gossip", A: m, B: 1, C: 0}}
+		case "parked-many": // the other guardians all signed a message this node never observed (a quorum without it, from four members on)
+			var out []op
+			for j := 1; j < size; j++ {
+				out = append(out, op{K: "gossip", A: m, B: j, C: 0})
+			}
+			return out
 		case "done":
 			out := []op{{K: "observe", A: m}, {K: "loopback", A: 0}}
 			for j := 0; j < size; j++ {
